@@ -69,6 +69,21 @@ PROPS = {
         ],
         "gen": [],
     },
+    "C17": {
+        "level_text": "Lean 4 theorems over executable models of (a) the task log writer, the shell tool's capture_stream, and page reads: stored log = prefix of the output up to the cap for every chunking and cap; ranges consecutive and tiling; each range names its chunk; shell preview and spill artifact are prefixes within their limits and the artifact exists whenever needed; any page walk reassembles the stored bytes; and (b) a labelled transition system of one task (main task, stdout pump, stderr pump, client cancellation at any moment, atomic emits): under EVERY schedule the recorded stream is a well-formed lifecycle prefix, complete once the task finished, with nothing after the terminal status and all output before it. Tied to the code by correspondence: scripted chunk sequences through the real TaskLogWriter / read_artifact_range / capture_stream / truncate_utf8 (exported under cfg rip_verif) vs the compiled model; real background tasks through the HTTP router (interleaved stdout/stderr, split multi-byte, binary, 40 KB, exit codes, cancel at a random moment, invalid args, bad cwd, preview 0/2, cap 5) whose recorded frames must be accepted by the Lean lifecycle automaton and whose frame ranges / page walks / artifact hashes are checked by oracles.",
+        "level_note": "Lean kernel; SHA-256 not modelled (hash recomputed by the harness); lossy UTF-8 decoding of page/preview text is applied by Rust on both sides; OS pipe chunking is whatever the kernel delivers (the theorems hold for every chunking); PTY tasks share the emitter and lifecycle shape but are not run here (no PTY in the sandbox).",
+        "technique": "Lean 4 proof (fold invariants over all chunkings; inductive invariant over all interleavings) + differential correspondence check + oracles on real tasks",
+        "design_ref": "§5 C17",
+        "trusted_base": COMMON_TB + [
+            "modelled, not verified: tokio file writes complete in order; emitter mutex makes each emit atomic; from_utf8 model (diff-tested in C15)",
+            "hooks: ripd::verif_export::tasks::{log_writer_feed, read_range, truncate_utf8}, rip_tools::verif_capture_stream, ripd::verif_export::build_app",
+        ],
+        "assumptions": [
+            "the harness waits for tokio's background file writes to complete before reading a log (a reader racing the last write may see a shorter file for a moment)",
+            "text exactness of page walks is claimed for stored output that is valid UTF-8 and pages of at least 4 bytes; binary output is compared on byte counts only",
+        ],
+        "gen": [],
+    },
     "C20": {
         "level_text": "Lean 4 theorems over an executable model of FrameStore and the TuiState::update fold: frame/output/preview bounds for every frame sequence and capacity, truncation cut on a char boundary, lookup-by-seq sound for every store state and complete on consecutive stores; the model is tied to the code by a differential correspondence run (same frame sequences through rip-tui and the compiled model) plus implementation oracles.",
         "level_note": "Lean kernel; axioms propext/Quot.sound only; model written by hand and validated by the correspondence check; BTreeMap/VecDeque/String modelled as lists; artifact-id extraction, job/context summaries and rendering not modelled.",
